@@ -1,5 +1,5 @@
 //@unit tracker
-//@props C13 C10 C14
+//@props C13 C10 C14 C11
 // Contracts on ChainTracker (vls-core/src/chain/tracker.rs): add_block / remove_block follow only
 // validated blocks and are atomic on refusal.
 use vstd::prelude::*;
@@ -175,6 +175,14 @@ impl<L: ChainListener> ChainTracker<L> {
             && final(self).headers@ == (if old(self).headers@.len() > 0 { old(self).headers@.drop_first() } else { old(self).headers@ })
             && r->Ok_0 == old(self).tip.0,                                                          //[C13.remove.retreat]
         r.is_err() ==> tracker_same(*final(self), *old(self)),                                       //[C13.remove.atomic] [C10.tracker.remove-err-frame]
+//@end
+
+//@fn vls-core/src/chain/tracker.rs :: impl<L: ChainListener> ChainTracker<L> :: restore props=C11,C13
+    ensures
+        // a restarted tracker stands exactly where the stored one stood: tip, height, remembered headers, listeners; deep
+        // reorgs are off until the configuration switches them on again
+        r.tip == tip && r.height == height && r.headers@ == headers@ && r.listeners == listeners && r.network == network
+            && r.trusted_oracle_pubkeys == trusted_oracle_pubkeys && !r.allow_deep_reorgs,             //[C11.tracker.restore-verbatim] [C13.tracker.restore-no-deep-reorgs]
 //@end
 
 // ---- listener registration (C14 / C11: what a restart puts back is the persisted entry, verbatim) ----
